@@ -37,6 +37,7 @@ template <class A, class B> std::string show_(const std::pair<A, B>& v, rank<8>)
 template <class T> typename std::enable_if<std::is_integral<T>::value, std::string>::type show_(const T& v, rank<7>) {
     return std::is_signed<T>::value ? std::to_string((long long)v) : std::to_string((unsigned long long)v);
 }
+template <class T> typename std::enable_if<std::is_floating_point<T>::value, std::string>::type show_(const T& v, rank<7>) { char b[40]; snprintf(b, sizeof b, "%g", (double)v); return b; }
 template <class T> typename std::enable_if<std::is_enum<T>::value, std::string>::type show_(const T& v, rank<7>) { return std::to_string((long long)v); }
 // containers
 template <class T> auto show_(const T& v, rank<5>) -> decltype(v.begin(), v.end(), std::string()) {
